@@ -107,6 +107,13 @@ func splitWord(segs []int, variant string, env *interp.ExecEnv) ast.Word {
 			}
 		}
 	}
+	switch variant {
+	case "dflt":
+		// the whole word as the default value of an unset parameter
+		return ast.Word{&ast.ParamExp{Braces: true, Name: &ast.Lit{Value: "nosuch"}, Op: ":-", Word: w}}
+	case "tilde":
+		return append(ast.Word{&ast.Lit{Value: "~/"}}, w...)
+	}
 	return w
 }
 
@@ -121,7 +128,8 @@ func splitMode(in *bufio.Scanner, out *json.Encoder) error {
 			return err
 		}
 		o := splitObs{Segs: c.Segs, Obs: map[string][][][]string{}}
-		for _, variant := range []string{"lit", "var", "arith"} {
+		env.Set("HOME", "x,1")
+		for _, variant := range []string{"lit", "var", "arith", "dflt", "tilde"} {
 			per := [][][]string{}
 			for _, ifs := range splitIFS {
 				if ifs.unset {
